@@ -287,13 +287,34 @@ def progNotField (own : Nm) (v : Int) : List (Nat × Bool) → List Step
   | (c, ok) :: rest =>
     .write c own :: .check (.cell c) true :: (if ok then [.check own false] else progNotField own v rest)
 
-end Typedpy.Sched
-
-namespace Typedpy.Sched
-
 inductive WKind where
   | allOf | anyOf | oneOf | notField
   deriving DecidableEq, Repr
+
+/-- the program of a multi-field wrapper whose own name is `own` -/
+def wrapProg (kind : WKind) (own : Nm) (v : Int) (opts : List (Nat × Bool)) : List Step :=
+  match kind with
+  | .allOf => progAllOf own v opts
+  | .anyOf => progAnyOf own v opts
+  | .oneOf => progOneOf own v opts
+  | .notField => progNotField own v opts
+
+/-- `Array[W[...]]` / `Deque[W[...]]` (extract_field_value) whose single items object is a multi-field wrapper `W` (cell
+    `cW`): the wrapper's OWN name is the scratch cell of the outer loop; per element the outer writes `name_i` into it,
+    calls `W.__set__(temp_st, v)` - which renames its options after the CURRENT content of `cW`, reports errors under it and
+    stores the value under it - and reads the element back under it (the wrapper program's final `load own`). -/
+def progNestFrom (cW : Nat) (name : String) (kind : WKind) : Nat → List (Int × List (Nat × Bool)) → List Step
+  | _, [] => []
+  | i, (v, opts) :: rest =>
+    .write cW (.const (elemName name i)) :: .check (.cell cW) true ::
+      (wrapProg kind (.cell cW) v opts ++ progNestFrom cW name kind (i + 1) rest)
+
+def progNest (cW : Nat) (name : String) (kind : WKind) (elems : List (Int × List (Nat × Bool))) : List Step :=
+  .write cW (.const name) :: .newTemp :: progNestFrom cW name kind 0 elems
+
+end Typedpy.Sched
+
+namespace Typedpy.Sched
 
 /-- one validation call of a collection / multi-field wrapper field, as the harness describes it on the wire -/
 inductive Call where
@@ -303,6 +324,9 @@ inductive Call where
   | map (kc vc : Nat) (name : String) (entries : List ((Int × Bool) × (Int × Bool)))
   | pos (base : Nat) (name : String) (n : Nat) (elems : List (Int × Bool))
   | wrap (kind : WKind) (name : String) (v : Int) (opts : List (Nat × Bool))
+  /-- `Array[W[..]]` / `Deque[W[..]]` with a multi-field wrapper as the single items object (cell `cW`); per element the
+      value and, per option, (cell, accepted) -/
+  | nest (cW : Nat) (name : String) (kind : WKind) (elems : List (Int × List (Nat × Bool)))
   deriving Repr
 
 def Call.prog : Call → List Step
@@ -315,6 +339,7 @@ def Call.prog : Call → List Step
   | .wrap .anyOf n v os => progAnyOf (.const n) v os
   | .wrap .oneOf n v os => progOneOf (.const n) v os
   | .wrap .notField n v os => progNotField (.const n) v os
+  | .nest cW n k es => progNest cW n k es
 
 /-- decidable conflict freedom: no program writes a cell that another program reads -/
 def disjointB (ws rs : List Nat) : Bool := ws.all fun c => !rs.contains c
@@ -331,6 +356,7 @@ def Call.usesCell (c : Nat) : Call → Bool
   | .map kc vc _ _ => c == kc || c == vc
   | .pos base _ n _ => decide (base ≤ c) && decide (c < base + n)
   | .wrap _ _ _ opts => (opts.map fun o => o.1).contains c
+  | .nest cW _ _ elems => c == cW || elems.any fun e => (e.2.map fun o => o.1).contains c
 
 /-! ### same-value writes (threads on the SAME field write the same name) -/
 
